@@ -465,6 +465,36 @@ def generate(template_path, src_root, out_path, vacuity=False):
             segs.append([f"// ---- statement copied mechanically from {d['file']} (proved there, assumed here) ----\n#[verifier::external_body]\n{sig}\n{{ }}\n", None])
             i += 1
             continue
+        if st.startswith('//@assume-spec') or st.startswith('//@same-spec'):
+            # a spec function of another unit: copied mechanically (assume-spec) or compared with this template's own definition (same-spec)
+            copy = st.startswith('//@assume-spec')
+            d = parse_kv(st[len('//@assume-spec' if copy else '//@same-spec'):])
+            rx = r'(?m)^pub open spec fn ' + re.escape(d['name']) + r'\b.*?\n?\}\s*$'
+            src = open(os.path.join(tdir, d['file'])).read()
+            m = re.search(rx, src, re.S | re.M)
+            if not m:
+                raise GenError(f"assume-spec: {d['name']} not found in {d['file']}")
+            # shortest match up to the first line that closes the function (definitions here are one-liners or end with a line `}`)
+            text = m.group(0)
+            first = re.search(r'(?m)^pub open spec fn ' + re.escape(d['name']) + r'\b[^\n]*\{[^\n]*\}\s*$', src)
+            if first:
+                text = first.group(0)
+            else:
+                text = src[m.start():src.index('\n}', m.start()) + 2]
+            if copy:
+                segs.append([f"// ---- definition copied mechanically from {d['file']} ----\n{text}\n", None])
+            else:
+                mine = '\n'.join(lines)
+                m2 = re.search(r'(?m)^pub open spec fn ' + re.escape(d['name']) + r'\b', mine)
+                if not m2:
+                    raise GenError(f"same-spec: {d['name']} not defined in this template")
+                one = re.match(r'[^\n]*\{[^\n]*\}\s*$', mine[m2.start():].split('\n')[0])
+                my = mine[m2.start():].split('\n')[0] if one else mine[m2.start():mine.index('\n}', m2.start()) + 2]
+                nz = lambda t: re.sub(r'\s+', ' ', t).strip()
+                if nz(my) != nz(text):
+                    raise GenError(f"same-spec: definition of {d['name']} differs from {d['file']}: `{nz(my)}` vs `{nz(text)}`")
+            i += 1
+            continue
         if st.startswith('//@ringlemma'):
             d = parse_kv(st[len('//@ringlemma'):])
             try:
